@@ -1,10 +1,20 @@
 ENGINES = [
     {'name': 'X', 'path': 'lib/xworker.py', 'kind_free_text': 'CrossHair 0.0.110 symbolic execution of the real Python functions (z3 decides every branch), one OS process per condition, vacuity twin per condition, plain-CPython replay of every counterexample',
-     'serves_properties': ['C06', 'C09', 'C10', 'C17']},
+     'serves_properties': ['C06', 'C09', 'C10', 'C15', 'C17']},
 ]
 NOTES = ('Technique family: solver-based checking of the real code. Every result is bounded; bounds, stubs and '
          'assumptions are in evidence/<id>.json and DESIGN.md. Exit 2 of ./check = harness error (never a verdict).')
 CLAIMS = {
+    'C15': dict(
+        engine='X',
+        technique='symbolic execution (CrossHair+z3) of LocalShare.gc/install/use from an arbitrary valid store with symbolic sizes/quota/flags, plus bounded symbolic interleavings of two store operations with an flock model',
+        text='(a) From every valid store with <= 2 (quick) / 3 (thorough) packages (symbolic sizes and quota, all presence/used/age shapes, incl. store missing and store still empty) one gc / install / use '
+             'leaves a valid store (repo.json = sum of installed packages, visible packages complete with matching hash), never removes a used package unless forced, removes unused packages oldest '
+             'usage first and not more than needed in automatic cleaning, does nothing with --dry-run, never raises except the documented BuildError causes. (b) install||install, install||gc, use||gc, '
+             'install||use, first-install||gc: every interleaving of their shared operations keeps these invariants, installs at most once, hands no collected package to a user, and does not deadlock.',
+        design_ref='DESIGN.md section 4, C15',
+        note='Trusted: SymFS + flock model, object codec instead of json, SymFS-level shutil/tempfile, token hash instead of hashDirectoryWithSize. Outside: builder-side symlink bookkeeping '
+             '(_useSharedPackage/_installSharedPackage), Windows branch, > 2 concurrent processes. The ordering of `bob clean --shared --used/--all-unused` is not part of the statement (see DESIGN.md observation).'),
     'C09': dict(
         engine='X',
         technique='bounded symbolic interleaving + fault plan (CrossHair+z3 choose schedule, crash index, I/O-error index) over the real LocalArchive upload/mirror code run as replayable processes on a stub POSIX file system',
